@@ -1,6 +1,6 @@
 (* Check.v — executable comparison of the model with observations of the
    implementation (used by the correspondence runs; no proofs). *)
-From GV.Model Require Export SEval.
+From GV.Model Require Export SEval Wf.
 
 Definition bs (l : list N) : string :=
   fold_right (fun n acc => String (ascii_of_N n) acc) EmptyString l.
@@ -76,3 +76,17 @@ Definition rule_statuses (rec : record) : list (string * status) :=
                      | KRuleCheck n st _ => [(n, st)]
                      | _ => []
                      end) (rec_children rec).
+
+(* C02 monitor on an observed result: the record tree is explained node by node and its
+   root carries the returned status *)
+Inductive wf_verdict := WfOk | WfNotApplicable | WfBadNode (path : list N) | WfRootMismatch.
+Definition wf_impl (i : impl_result) : wf_verdict :=
+  match i with
+  | IOk st rec =>
+      if negb (status_eqb st (rec_status rec)) then WfRootMismatch
+      else match first_bad 200 rec with
+           | None => WfOk
+           | Some p => WfBadNode (map N.of_nat p)
+           end
+  | _ => WfNotApplicable
+  end.
